@@ -3,14 +3,16 @@ package sym
 import (
 	"go/types"
 	"sort"
-	"strings"
 )
 
 // Mem is a flow-sensitive abstract memory: cells keyed by object id + constant
 // path. A cell at a path covers everything below it unless a more specific
 // cell exists.
 type Mem struct {
-	cells map[string]*cell
+	objs map[string]map[string]*cell // object id -> path string -> cell
+	// Frozen memories (the global memory after the init functions) cache loads.
+	Frozen bool
+	cache  map[string]*Term
 }
 
 type cell struct {
@@ -19,12 +21,16 @@ type cell struct {
 	val  *Term
 }
 
-func NewMem() *Mem { return &Mem{cells: map[string]*cell{}} }
+func NewMem() *Mem { return &Mem{objs: map[string]map[string]*cell{}} }
 
 func (m *Mem) Clone() *Mem {
-	n := &Mem{cells: make(map[string]*cell, len(m.cells))}
-	for k, c := range m.cells {
-		n.cells[k] = c
+	n := &Mem{objs: make(map[string]map[string]*cell, len(m.objs))}
+	for k, cs := range m.objs {
+		nc := make(map[string]*cell, len(cs))
+		for pk, c := range cs {
+			nc[pk] = c
+		}
+		n.objs[k] = nc
 	}
 	return n
 }
@@ -55,14 +61,7 @@ func typeAt(t types.Type, p Path) types.Type {
 }
 
 // dropObject removes every cell of the object (used when an Alloc re-executes).
-func (m *Mem) dropObject(o *Object) {
-	pre := o.ID + "|"
-	for k := range m.cells {
-		if strings.HasPrefix(k, pre) {
-			delete(m.cells, k)
-		}
-	}
-}
+func (m *Mem) dropObject(o *Object) { delete(m.objs, o.ID) }
 
 func isPrefix(p, q Path) bool { // p is a (non-strict) prefix of q
 	if len(p) > len(q) {
@@ -80,42 +79,51 @@ func isPrefix(p, q Path) bool { // p is a (non-strict) prefix of q
 	return true
 }
 
-// cellsOf returns the cells of object o, sorted by key.
-func (m *Mem) cellsOf(o *Object) []*cell {
-	pre := o.ID + "|"
+// cellsOf returns the cells of object o in unspecified order.
+func (m *Mem) cellsOf(o *Object) map[string]*cell { return m.objs[o.ID] }
+
+// sortedCells returns the cells of o sorted by path.
+func (m *Mem) sortedCells(o *Object) []*cell {
 	var out []*cell
-	for k, c := range m.cells {
-		if strings.HasPrefix(k, pre) {
-			out = append(out, c)
-		}
+	for _, c := range m.objs[o.ID] {
+		out = append(out, c)
 	}
-	sort.Slice(out, func(i, j int) bool { return cellKey(out[i].obj, out[i].path) < cellKey(out[j].obj, out[j].path) })
+	sort.Slice(out, func(i, j int) bool { return out[i].path.String() < out[j].path.String() })
 	return out
 }
 
 // store writes v at the constant path p of o, killing more specific cells.
 func (m *Mem) store(o *Object, p Path, v *Term) {
-	for _, c := range m.cellsOf(o) {
-		if len(c.path) > len(p) && isPrefix(p, c.path) {
-			delete(m.cells, cellKey(o, c.path))
+	cs := m.objs[o.ID]
+	if cs == nil {
+		cs = map[string]*cell{}
+		m.objs[o.ID] = cs
+	}
+	if len(cs) > 0 {
+		for k, c := range cs {
+			if len(c.path) > len(p) && isPrefix(p, c.path) {
+				delete(cs, k)
+			}
 		}
 	}
-	m.cells[cellKey(o, p)] = &cell{o, p, v}
+	cs[p.String()] = &cell{o, p, v}
 }
 
-// Keys returns all cell keys (for joins).
+// Keys returns all cell keys (for joins and listings), sorted.
 func (m *Mem) Keys() []string {
-	out := make([]string, 0, len(m.cells))
-	for k := range m.cells {
-		out = append(out, k)
+	var out []string
+	for id, cs := range m.objs {
+		for pk := range cs {
+			out = append(out, id+"|"+pk)
+		}
 	}
 	sort.Strings(out)
 	return out
 }
 
-// Cells exposes (object, path, value) triples of an object, for rules.
+// Cells exposes (path, value) pairs of an object, for rules.
 func (m *Mem) Cells(o *Object) (paths []Path, vals []*Term) {
-	for _, c := range m.cellsOf(o) {
+	for _, c := range m.sortedCells(o) {
 		paths = append(paths, c.path)
 		vals = append(vals, c.val)
 	}
@@ -131,8 +139,27 @@ func I(i int64) PathElem { return PathElem{Field: -1, Index: i} }
 
 // ValueOf returns the value stored under a cell key (as listed by Keys).
 func (m *Mem) ValueOf(key string) *Term {
-	if c, ok := m.cells[key]; ok {
-		return c.val
+	for id, cs := range m.objs {
+		if len(key) > len(id) && key[:len(id)] == id && key[len(id)] == '|' {
+			if c, ok := cs[key[len(id)+1:]]; ok {
+				return c.val
+			}
+		}
 	}
 	return nil
+}
+
+// lookup returns the cell stored under key, if any.
+func (m *Mem) lookupKey(id, pk string) (*cell, bool) {
+	c, ok := m.objs[id][pk]
+	return c, ok
+}
+
+func (m *Mem) put(o *Object, p Path, v *Term) {
+	cs := m.objs[o.ID]
+	if cs == nil {
+		cs = map[string]*cell{}
+		m.objs[o.ID] = cs
+	}
+	cs[p.String()] = &cell{o, p, v}
 }
